@@ -485,6 +485,8 @@ def apply_rewrite(kind, text):
         return str(text)
     if k == "append_once":
         return text if text.endswith(kind[1]) else text + kind[1]
+    if k == "restore":          # an earlier handler redacts, a later one puts the original text back: identity overall
+        return str(text)
     raise ValueError("rewrite kind %r" % (kind,))
 
 
@@ -504,8 +506,19 @@ def run_scenario(sc):
     rw = sc.get("rewrite") or {}
     where, kind = rw.get("where"), rw.get("kind")
 
+    saved = []
+
     def rewriting(record):
-        record["message"] = apply_rewrite(kind, record["message"])
+        if kind[0] == "restore":
+            saved.append(record["message"])
+            record["message"] = kind[1]
+        else:
+            record["message"] = apply_rewrite(kind, record["message"])
+
+    def restoring(record):
+        if saved:
+            record["message"] = saved[-1]
+        return True
 
     def rw_filter(record):
         rewriting(record)
@@ -539,6 +552,9 @@ def run_scenario(sc):
             else:
                 ukw["format"] = ups["format"]
             lg.add(lambda m: up.append(m), colorize=ups.get("colorize", False), catch=False, level=0, **ukw)
+            if where == "upstream_filter" and kind[0] == "restore":
+                lg.add(lambda m: up.append(m), format="{message}", colorize=ups.get("colorize", False), catch=False,
+                       level=0, filter=restoring)
         pair = [(lambda m: col.append(m), f1, True), (lambda m: pla.append(m), f2, False)]
         if sc.get("order") == "plain_first":
             pair.reverse()
@@ -848,6 +864,11 @@ def gen_scenario(rng, stats):
         kind = rng.choice([["replace", "a", "#"], ["replace", "x", ""], ["const", "new <red>text</red> {x}"], ["same"],
                            ["append_once", "!"], ["replace", " ", "_"], ["const", ""], ["same"]])
         sc["rewrite"] = {"where": rng.choice(wheres), "kind": kind}
+        if sc["rewrite"]["where"] == "upstream_filter" and kind[0] == "const" and rng.fork("restore").chance(50):
+            # a first handler's filter redacts the message, a second handler's filter restores it: when the compared
+            # pair looks at the record the text is the coloured message's again, so its colours must be kept
+            sc["rewrite"]["kind"] = ["restore", kind[1]]
+            stats("scenario:rewrite=redacted-then-restored")
         stats("scenario:rewrite=" + sc["rewrite"]["where"])
     if (sc.get("rewrite") or {}).get("where", "").startswith("upstream") or rng.chance(12):
         sc["upstream"] = {"colorize": rng.chance(50), "dynamic": rng.chance(30),
